@@ -37,7 +37,8 @@ Section Post.
 
   (* r lies in a bracket [a,b] inside [A,B] across which z goes from negative to positive *)
   Definition Br (A B r : Z) : Prop :=
-    exists a b, A <= a /\ a <= r <= b /\ b <= B /\ a < b /\ (z a < 0)%Q /\ (0 < z b)%Q.
+    exists a b, A <= a /\ a <= r <= b /\ b <= B /\ a < b /\ (z a < 0)%Q /\ (0 < z b)%Q /\
+                ((z r < 0)%Q -> (1 <= z b)%Q).
 
   Lemma stepping_post : forall fuel t_old n t' p0' p1' n',
     stepping z d fuel t_old (z t_old) (z (t_old - d)) n = Some (t', p0', p1', n') ->
@@ -57,7 +58,7 @@ Section Post.
   Qed.
 
   Lemma bisect_post A B : forall fuel t_old t_new p1 tmo n r m,
-    ((A <= t_new /\ t_new < t_old /\ t_old <= B /\ (z t_new < 0)%Q /\ (0 < z t_old)%Q) \/ ~ (1 < Qabs p1)%Q) ->
+    ((A <= t_new /\ t_new < t_old /\ t_old <= B /\ (z t_new < 0)%Q /\ (1 <= z t_old)%Q) \/ ~ (1 < Qabs p1)%Q) ->
     (forall t0, tmo = Some t0 -> p1 = z t0 /\ Br A B t0) ->
     bisect z fuel t_old t_new p1 tmo n = Ret r m ->
     Br A B r /\ (Qabs (z r) <= 1)%Q.
@@ -70,14 +71,20 @@ Section Post.
       + apply qltb_lt in E. destruct Inv as [(I1 & I2 & I3 & I4 & I5)|N]; [|contradiction].
         destruct (half_bounds (t_old - t_new) ltac:(lia)) as (Q1 & Q2 & Q3).
         set (tm := t_old - Z.quot (t_old - t_new) 2) in *.
-        assert (HB : Br A B tm). { exists t_new, t_old. repeat split; auto; unfold tm; lia. }
+        assert (I5' : (0 < z t_old)%Q) by (eapply Qlt_le_trans; [|exact I5]; reflexivity).
+        assert (HB : Br A B tm).
+        { exists t_new, t_old. split; [lia|]. split; [unfold tm; lia|]. split; [lia|]. split; [lia|].
+          split; [exact I4|]. split; [exact I5'|]. intros _. exact I5. }
         destruct (qltb 0 (z tm)) eqn:P.
         * apply qltb_lt in P. eapply IH; [| |exact H].
-          -- left. repeat split; auto; unfold tm; lia.
+          -- destruct (Qlt_le_dec 1 (z tm)) as [Bg|Sm].
+             ++ left. split; [lia|]. split; [unfold tm; lia|]. split; [unfold tm; lia|]. split; [exact I4|].
+                apply Qlt_le_weak. exact Bg.
+             ++ right. rewrite Qabs_pos by (apply Qlt_le_weak; exact P). apply Qle_not_lt. exact Sm.
           -- intros t0 E0. injection E0 as <-. auto.
         * apply qltb_ge in P. eapply IH; [| |exact H].
           -- destruct (Qlt_le_dec (z tm) 0) as [Ng|Ze].
-             ++ left. repeat split; auto; try (unfold tm; lia).
+             ++ left. split; [lia|]. split; [|split; [lia|split; [exact Ng|exact I5]]].
                 destruct (Z.eq_dec tm t_old) as [Eq|Ne]; [|unfold tm in *; lia].
                 exfalso. rewrite Eq in Ng. apply (Qlt_irrefl 0). eapply Qlt_trans; eassumption.
              ++ right. assert (Z0 : (z tm == 0)%Q) by (apply Qle_antisym; assumption).
@@ -95,18 +102,20 @@ Section Post.
     unfold last_an. intros H.
     destruct (stepping z d fuel1 t (z t) (z (t - d)) 2) as [[[[t_old p0] p1] n]|] eqn:S; [|discriminate].
     apply stepping_post in S as (S1 & -> & -> & S4 & S5 & k & K1 & K2 & K3).
-    assert (HBr : forall x, t_old - d <= x <= t_old -> Br (t - (k + 1) * d) (t - k * d) x).
-    { intros x Hx. exists (t_old - d), t_old. repeat split; auto; lia. }
+    assert (HBr : forall x, t_old - d <= x <= t_old -> ((z x < 0)%Q -> (1 <= z t_old)%Q) ->
+                  Br (t - (k + 1) * d) (t - k * d) x).
+    { intros x Hx Hi. exists (t_old - d), t_old. split; [lia|]. split; [lia|]. split; [lia|]. split; [lia|]. auto. }
     destruct (qltb (Qabs (z t_old)) 1) eqn:E0.
     { injection H as <- <-. apply qltb_lt in E0. split; [lia|]. split; [apply Qlt_le_weak; exact E0|].
-      exists k. split; [lia|]. apply HBr. lia. }
+      exists k. split; [lia|]. apply HBr; [lia|]. intros C. exfalso. apply (Qlt_irrefl 0). eapply Qlt_trans; eassumption. }
+    apply qltb_ge in E0. rewrite Qabs_pos in E0 by (apply Qlt_le_weak; exact S4).
     destruct (qltb (Qabs (z (t_old - d))) 1) eqn:E1.
     { injection H as <- <-. apply qltb_lt in E1. split; [lia|]. split; [apply Qlt_le_weak; exact E1|].
-      exists k. split; [lia|]. apply HBr. lia. }
+      exists k. split; [lia|]. apply HBr; [lia|]. intros _. exact E0. }
     apply (bisect_post (t - (k + 1) * d) (t - k * d)) in H as [HB HA].
     - split; [|split; [exact HA|exists k; split; [lia|exact HB]]].
       destruct HB as (a & b & B1 & B2 & B3 & _). nia.
-    - left. repeat split; auto; lia.
+    - left. split; [lia|]. split; [lia|]. split; [lia|]. split; [exact S5|exact E0].
     - intros t0 E. discriminate.
   Qed.
 End Post.
@@ -203,16 +212,16 @@ Lemma ten_minutes_values :
   Z.log2_up 600000 = 20 /\ Z.log2_up 600000000 = 30 /\ Z.log2_up 600000000000 = 40.
 Proof. vm_compute. repeat split; reflexivity. Qed.
 
-Lemma get_last_an_time_terminates u zw K k t :
+Lemma get_last_an_time_terminates u zw shift K k t :
   (K <= 1)%Q -> (forall x : Z, (zw (x + 1)%Z - zw x <= K)%Q) -> 0 <= k ->
   let d := ten_minutes (work_unit u) in
   (0 < zw (to_work u t - k * d)%Z)%Q -> (zw (to_work u t - (k + 1) * d)%Z < 0)%Q ->
-  get_last_an_time u zw (Z.to_nat k) 41 t <> OutOfFuel.
+  get_last_an_time u zw shift (Z.to_nat k) 41 t <> OutOfFuel.
 Proof.
-  intros HK HL Hk d H1 H2. unfold get_last_an_time. fold d.
+  intros HK HL Hk d H1 H2.
   assert (dpos : 0 < d) by (destruct u; vm_compute; reflexivity).
   pose proof (last_an_terminates zw d dpos K HK HL k (to_work u t) Hk H1 H2) as T.
-  (* more fuel than needed never hurts: show 41 >= log2_up d + 1 by monotonicity in fuel *)
+  (* more fuel than needed never hurts *)
   assert (Mono : forall f g t_old t_new p1 tmo n, (f <= g)%nat ->
              bisect zw f t_old t_new p1 tmo n <> OutOfFuel ->
              bisect zw g t_old t_new p1 tmo n = bisect zw f t_old t_new p1 tmo n).
@@ -220,11 +229,41 @@ Proof.
     - destruct g; cbn [bisect] in *; destruct (qltb 1 (Qabs p1)); try reflexivity; congruence.
     - destruct g; [lia|]. cbn [bisect] in *. destruct (qltb 1 (Qabs p1)); [|reflexivity].
       destruct (qltb 0 (zw (t_old - Z.quot (t_old - t_new) 2))); apply IH; try lia; exact NO. }
-  unfold last_an in *.
-  destruct (stepping zw d (Z.to_nat k) (to_work u t) (zw (to_work u t)) (zw (to_work u t - d)) 2) as [[[[t_old p0] p1] n]|]; [|exact T].
-  destruct (qltb (Qabs p0) 1); [discriminate|]. destruct (qltb (Qabs p1) 1); [discriminate|].
-  rewrite (Mono (S (Z.to_nat (Z.log2_up d))) 41%nat); [exact T| |exact T].
-  destruct u; vm_compute; lia.
+  assert (L41 : last_an zw d (Z.to_nat k) 41 (to_work u t) <> OutOfFuel).
+  { unfold last_an in *.
+    destruct (stepping zw d (Z.to_nat k) (to_work u t) (zw (to_work u t)) (zw (to_work u t - d)) 2) as [[[[t_old p0] p1] n]|]; [|exact T].
+    destruct (qltb (Qabs p0) 1); [discriminate|]. destruct (qltb (Qabs p1) 1); [discriminate|].
+    rewrite (Mono (S (Z.to_nat (Z.log2_up d))) 41%nat); [exact T| |exact T].
+    destruct u; vm_compute; lia. }
+  unfold get_last_an_time. fold d.
+  destruct (last_an zw d (Z.to_nat k) 41 (to_work u t)); [discriminate|contradiction|discriminate].
+Qed.
+
+(* the refined result (fix 2488c71) is still not later than the query time, provided the Newton step
+   moves back from a point with z >= 0 and, from a point with z < 0, does not pass a later tick where
+   z >= 1 km *)
+Lemma refined_not_late u zw shift fuel1 fuel2 t r n :
+  (forall x, (0 <= zw x)%Q -> 0 <= shift x) ->
+  (forall x b, (zw x < 0)%Q -> x < b -> (1 <= zw b)%Q -> refine u shift x <= to_res u b) ->
+  get_last_an_time u zw shift fuel1 fuel2 t = Ret r n ->
+  r <= to_res u (to_work u t) /\
+  exists r0 m, last_an zw (ten_minutes (work_unit u)) fuel1 fuel2 (to_work u t) = Ret r0 m /\
+               r = refine u shift r0 /\ n = S m /\ r0 <= to_work u t /\ (Qabs (zw r0) <= 1)%Q.
+Proof.
+  intros H1 H2 H. unfold get_last_an_time in H.
+  destruct (last_an zw (ten_minutes (work_unit u)) fuel1 fuel2 (to_work u t)) as [r0 m| |] eqn:E; try discriminate.
+  injection H as <- <-.
+  assert (dpos : 0 < ten_minutes (work_unit u)) by (destruct u; vm_compute; reflexivity).
+  destruct (last_an_post zw _ dpos _ _ _ _ _ E) as (L & A & k & Hk & a & b & B1 & B2 & B3 & B4 & B5 & B6 & B7).
+  assert (Mono : forall x y, x <= y -> to_res u x <= to_res u y) by (intros x y; unfold to_res; destruct (work_unit u); lia).
+  split; [|exists r0, m; auto].
+  destruct (Qlt_le_dec (zw r0) 0) as [Ng|Ps].
+  - assert (r0 < b).
+    { destruct (Z.eq_dec r0 b) as [->|Ne]; [|lia]. exfalso. apply (Qlt_irrefl 0). eapply Qlt_trans; eassumption. }
+    apply Z.le_trans with (to_res u b); [apply H2; auto|]. apply Mono.
+    assert (0 <= k * ten_minutes (work_unit u)) by nia. lia.
+  - specialize (H1 r0 Ps). apply Z.le_trans with (to_res u r0); [|apply Mono; exact L].
+    unfold refine, shift_res. destruct (work_unit u); lia.
 Qed.
 
 (* ------------------------------------------------------------------ *)
@@ -267,8 +306,10 @@ Proof.
   apply bisect_never_exits; [exact z_line_s_big | apply z_line_s_big].
 Qed.
 
+(* z / vz * 1e6 for the line: 7 t / 1e6 + 3 over 7 km/s, rounded: t + 428571 *)
+Definition shift_line_us (t : Z) : Z := t + 428571.
 Lemma with_conversion_returns :
-  get_last_an_time U_s z_line_us 0 41 300 = Ret (-292968) 13.
+  get_last_an_time U_s z_line_us shift_line_us 0 41 300 = Ret (-428571) 14.
 Proof. vm_compute. reflexivity. Qed.
 
 (* ------------------------------------------------------------------ *)
